@@ -69,6 +69,28 @@ fn strictly_ascending(v: &[u32]) -> bool {
 }
 
 impl Obs {
+    /// The facts this observation itself reports: terms, direct parents, and every record with the terms it lists.
+    pub fn to_facts(&self, version: (u16, u8, u8)) -> crate::model::Facts {
+        let mut f = crate::model::Facts { version, ..Default::default() };
+        for t in &self.terms {
+            f.terms.push(crate::model::TermFact { id: t.id, name: t.name.clone(), obsolete: t.obsolete, replacement: t.replacement });
+            for p in &t.parents {
+                f.edges.push((t.id, *p));
+            }
+        }
+        for (k, kind) in KINDS.iter().enumerate() {
+            for rec in &self.recs[k] {
+                if rec.terms.is_empty() {
+                    f.anns.push(crate::model::AnnFact { kind: *kind, id: rec.id, name: rec.name.clone(), term: None });
+                }
+                for t in &rec.terms {
+                    f.anns.push(crate::model::AnnFact { kind: *kind, id: rec.id, name: rec.name.clone(), term: Some(*t) });
+                }
+            }
+        }
+        f
+    }
+
     /// Walk the whole read API. Err(Incoherent) if the walk panics or two views of the same datum disagree.
     pub fn of(ont: &Ontology) -> Result<Obs, Incoherent> {
         match guard(|| Obs::walk(ont)) {
